@@ -14,7 +14,45 @@ import (
 func init() { Registry["C15"] = c15 }
 
 var dirtyNames = []string{"populated-object(longer lists, other union member)", "previously-decoded-other-image", "after-failed-truncated-decode",
-	"aliased-sub-objects(one nested object shared by every list entry and nested part)", "near-miss(the fresh result with every fixed text padded on its pad side and lists one longer)"}
+	"aliased-sub-objects(one nested object shared by every list entry and nested part, numeric lists sharing one backing array)", "near-miss(the fresh result with every fixed text padded on its pad side and lists one longer)",
+	"decoded-one-image-then-failed-on-a-truncated-other", "hand-built(discriminator and body/extension type disagree, over-long texts)"}
+
+// shareBacking makes every numeric list of the object graph a window onto ONE backing array per element type
+// (a caller that pre-allocates a table and hands slices of it to several parts of a pooled message).
+func shareBacking(v reflect.Value, pools map[reflect.Type]reflect.Value) {
+	switch v.Kind() {
+	case reflect.Pointer, reflect.Interface:
+		if !v.IsNil() {
+			shareBacking(v.Elem(), pools)
+		}
+	case reflect.Struct:
+		for i := 0; i < v.NumField(); i++ {
+			shareBacking(v.Field(i), pools)
+		}
+	case reflect.Slice:
+		ek := v.Type().Elem().Kind()
+		if ek == reflect.Pointer {
+			for i := 0; i < v.Len(); i++ {
+				shareBacking(v.Index(i), pools)
+			}
+			return
+		}
+		if ek == reflect.String || !v.CanSet() {
+			return
+		}
+		pool, ok := pools[v.Type()]
+		if !ok {
+			pool = reflect.MakeSlice(v.Type(), 512, 512)
+			pools[v.Type()] = pool
+		}
+		n := v.Len()
+		if n > 512 {
+			n = 512
+		}
+		reflect.Copy(pool, v.Slice(0, n))
+		v.Set(pool.Slice3(0, n, 512))
+	}
+}
 
 // aliasParts makes every object-list entry of v (and every nested pointer part of the same type) point to ONE shared object.
 func aliasParts(e *Env, t *schema.Type, v reflect.Value) {
@@ -88,7 +126,7 @@ func nearMiss(e *Env, t *schema.Type, v reflect.Value) {
 
 func c15(e *Env) {
 	r := e.R
-	r.Rule("every type × images (even cases: valid images of canonical values; odd cases: token-level wire images incl. all-pad text and zero counts; every 5th: images with 1..4 mutated bytes, accepted or not) × 5 dirty receivers: an object populated with longer lists / another union member / non-nil nested parts, an object that already decoded a different image, an object left behind by a failed decode of a truncated image, an object whose list entries and nested parts all alias ONE shared sub-object, and a near miss of the expected result (every fixed text padded on its pad side, prefixed texts one byte longer, lists one entry longer). distinct_nontrivial = distinct (image hash, dirty kind) where the dirty receiver really differed from the fresh result before the decode")
+	r.Rule("every type × images (even cases: valid images of canonical values; odd cases: token-level wire images incl. all-pad text and zero counts; every 5th: images with 1..4 mutated bytes, accepted or not) × 7 dirty receivers: an object populated with longer lists / another union member / non-nil nested parts, an object that already decoded a different image, an object left behind by a failed decode of a truncated image, an object whose list entries and nested parts all alias ONE shared sub-object, a near miss of the expected result (every fixed text padded on its pad side, prefixed texts one byte longer, lists one entry longer), an object that decoded one image and then failed half way through another, and a hand-built object whose discriminator and body/extension type disagree; in the aliased receiver all numeric lists are windows onto one shared backing array. distinct_nontrivial = distinct (image hash, dirty kind) where the dirty receiver really differed from the fresh result before the decode")
 	r.Explain("Oracle: Decode(image) into a fresh object and into each dirty receiver agree on accept/reject, and on accept the two messages are ≡ (strict: list lengths, union member type, nested parts); additionally the same number of bytes is consumed.")
 	types := e.Types()
 	n := e.N(200, 8000)
@@ -123,7 +161,7 @@ func c15(e *Env) {
 			if fp != nil {
 				continue // C09's business
 			}
-			for dk := 0; dk < 5; dk++ {
+			for dk := 0; dk < 7; dk++ {
 				g2 := &gen.Gen{S: e.S, C: e.C, R: gen.NewRng(e.Seed, "C15", t.QName, ci, "dirty", dk), O: &gen.Opts{Lens: []int{2, 3, 17}}}
 				var dirty any
 				switch dk {
@@ -142,6 +180,19 @@ func c15(e *Env) {
 				case 3:
 					dirty = g2.Value(t)
 					aliasParts(e, t, reflect.ValueOf(dirty).Elem())
+					shareBacking(reflect.ValueOf(dirty), map[reflect.Type]reflect.Value{})
+				case 5:
+					// a successful decode of one image, then a decode of another that fails half way
+					dirty = e.C.New[t.QName]()
+					LibDecode(dirty, bytes.NewBuffer(g2.Wire(t)))
+					w, _, _ := EncodeFresh(g2.Value(t))
+					if len(w) > 1 {
+						w = w[:1+g2.R.Intn(len(w)-1)]
+					}
+					LibDecode(dirty, bytes.NewBuffer(append([]byte(nil), w...)))
+				case 6:
+					g2.O = &gen.Opts{Arbitrary: true, Lens: []int{2, 3, 17}}
+					dirty = g2.Value(t)
 				case 4:
 					if ferr != nil {
 						continue
